@@ -189,6 +189,13 @@ func genC12(r *Rand, tier string) []Case {
 				q2.Items = []Item{{E: Col("id")}, {E: f, Alias: "v"}, {E: &Expr{K: "call", Qual: "SPIN", Name: "idf", Items: []*Expr{Num(1)}}, Alias: "v"}}
 				add(q2, name, "select-item-then-omitted-same-alias", 2)
 			}
+			if async && name != "subquery-async" {
+				// ... in both sides of a UNION (distinct): equal rows are duplicates once the calls have completed
+				ub := base()
+				ub.Items = []Item{{E: Col("id")}, {E: f, Alias: "v"}}
+				add(&Stmt{Union: true, All: false, L: ub, R: ub}, name, "union-distinct-sides", 2)
+				add(&Stmt{Union: true, All: false, L: &Stmt{Union: true, All: true, L: ub, R: ub}, R: ub, Limit: intp(2)}, name, "union-distinct-chain-limit", 2)
+			}
 			if async {
 				// ... also over the inner dimensions of a multi-dimensional FROM
 				nq := &Stmt{From: &From{K: "table", Path: []string{"nn"}}, Items: []Item{{E: Col("id")}, {E: f, Alias: "v"}}}
@@ -383,6 +390,11 @@ func genAsyncNesting(r *Rand, tier string) []Case {
 				return &Stmt{From: &From{K: "table", Path: []string{"c"}}, Items: []Item{{Star: true}}, With: []CTE{{Name: "c", Q: flat([]string{"t"})}}}
 			},
 			"union": func() *Stmt { return &Stmt{Union: true, All: true, L: flat([]string{"t"}), R: flat([]string{"u"})} },
+			// UNION (distinct) of the same rows: the duplicates are recognised once the calls have completed
+			"union-distinct": func() *Stmt {
+				f := &Stmt{From: &From{K: "table", Path: []string{"t"}}, Items: []Item{{E: Col("id")}, {E: &Expr{K: "call", Qual: "ASYNC", Name: "slowf", Items: []*Expr{Col("n1")}}, Alias: "v"}}}
+				return &Stmt{Union: true, All: false, L: f, R: f}
+			},
 			"join-operand": func() *Stmt {
 				return &Stmt{From: &From{K: "join", JT: "inner", Strat: "auto", L: &From{K: "derived", Q: flat([]string{"t"}), Alias: "x"}, R: &From{K: "table", Path: []string{"u"}, Alias: "y"},
 					On: Cmp("=", Col("x", "id"), Col("y", "id"))}, Items: []Item{{Star: true}}}
@@ -401,7 +413,7 @@ func genAsyncNesting(r *Rand, tier string) []Case {
 			// level 2: the level-1 query nested once more
 			add(&Stmt{From: &From{K: "derived", Q: mk(), Alias: "d"}, Items: []Item{{Star: true}}}, name, "derived")
 			add(&Stmt{From: &From{K: "table", Path: []string{"w"}}, Items: []Item{{Star: true}}, With: []CTE{{Name: "w", Q: mk()}}}, name, "cte")
-			if name != "union" {
+			if name != "union" && name != "union-distinct" {
 				add(&Stmt{Union: true, All: true, L: mk(), R: mk()}, name, "union-side")
 			}
 			// as a row-scoped subquery / EXISTS of an outer row: the level-1 source is re-rooted through the back-reference
